@@ -435,6 +435,9 @@ def _type_check_comparison_operator(expression, source_file_name, errors):
                     )
                 ]
             )
+            # A comparison is boolean even when its arguments are wrong; an
+            # unset type would crash the checks of enclosing expressions.
+            _annotate_as_boolean(expression)
             return
     if not _types_are_compatible(left, right):
         errors.append(
@@ -475,6 +478,7 @@ def _type_check_choice_operator(expression, source_file_name, errors):
                 )
             ]
         )
+        ir_data_utils.builder(expression).type.opaque.CopyFrom(ir_data.OpaqueType())
         return
     if_false = expression.function.args[2]
     if not _types_are_compatible(if_true, if_false):
